@@ -352,4 +352,58 @@ theorem convertToUint_plus (n : Nat) (h : n ≤ U64_MAX) :
   rw [convertToUint_noPrefix '+' _ (Or.inl (by decide))]
   simp [parseU64, parseDigits_natDigits10 n, h, ofOpt]
 
+
+/-! ### decimal digits with leading zeros (`010` is ten, `-007` is minus seven) -/
+
+theorem zeros_dec_notPrefix (k n : Nat) :
+    ∀ d t, List.replicate k '0' ++ natDigits 10 false n = d :: t → d ≠ 'x' ∧ d ≠ 'X' := by
+  intro d t h
+  cases k with
+  | zero =>
+    obtain ⟨c, r, hl, hc, _⟩ := natDigits_head 10 false (by omega) hd10 n
+    simp only [List.replicate_zero, List.nil_append, hl, List.cons.injEq] at h
+    have := isDigit10_plain hc
+    rw [← h.1]; exact ⟨this.1, this.2.1⟩
+  | succ k =>
+    simp only [List.replicate_succ, List.cons_append, List.cons.injEq] at h
+    rw [← h.1]; exact ⟨by decide, by decide⟩
+
+theorem parseDigits_zeros_dec (k n : Nat) :
+    parseDigits 10 (List.replicate k '0' ++ natDigits 10 false n) = some n :=
+  parseDigits_zeros 10 (by omega) k _ n (parseDigits_natDigits10 n)
+
+theorem convertToInt_zeros_dec (k n : Nat) (h : (n : Int) ≤ I64_MAX) :
+    convertToInt (List.replicate k '0' ++ natDigits 10 false n) = .ok (n : Int) := by
+  cases k with
+  | zero => simpa using convertToInt_natDigits n h
+  | succ k =>
+    have hp := parseDigits_zeros_dec (k + 1) n
+    simp only [List.replicate_succ, List.cons_append] at hp ⊢
+    rw [convertToInt_noPrefix '0' _ (Or.inr (zeros_dec_notPrefix k n)),
+      parseI64_of_digits 10 '0' _ (by decide) (by decide), hp]
+    simp [h, ofOpt]
+
+theorem convertToInt_plus_zeros_dec (k n : Nat) (h : (n : Int) ≤ I64_MAX) :
+    convertToInt ('+' :: (List.replicate k '0' ++ natDigits 10 false n)) = .ok (n : Int) := by
+  rw [convertToInt_noPrefix '+' _ (Or.inl (by decide))]
+  simp [parseI64, parseDigits_zeros_dec k n, h, ofOpt]
+
+theorem convertToInt_minus_zeros_dec (k n : Nat) (h : I64_MIN ≤ -(n : Int)) :
+    convertToInt ('-' :: (List.replicate k '0' ++ natDigits 10 false n)) = .ok (-(n : Int)) := by
+  rw [convertToInt_noPrefix '-' _ (Or.inl (by decide))]
+  simp only [parseI64, parseDigits_zeros_dec k n]
+  simp only [I64_MIN] at h ⊢
+  simp [h, ofOpt]
+
+theorem convertToUint_zeros_dec (k n : Nat) (h : n ≤ U64_MAX) :
+    convertToUint (List.replicate k '0' ++ natDigits 10 false n) = .ok n := by
+  cases k with
+  | zero => simpa using convertToUint_natDigits n h
+  | succ k =>
+    have hp := parseDigits_zeros_dec (k + 1) n
+    simp only [List.replicate_succ, List.cons_append] at hp ⊢
+    rw [convertToUint_noPrefix '0' _ (Or.inr (zeros_dec_notPrefix k n)),
+      parseU64_of_digits 10 '0' _ (by decide), hp]
+    simp [h, ofOpt]
+
 end CamVerif.XmlParse
